@@ -16,6 +16,7 @@ EXPLANATION = (
 RULE = "one obligation per non-zero Ok answer of each window state, per await of acquire and of the service coroutine, per error construction site"
 TRUSTED = ["tokio::time::sleep sleeps at least and about the requested time", "std::sync::Mutex", "rustc MIR construction"]
 ASSUMPTIONS = []
+CONFIG_CRATES = ["tower_resilience_ratelimiter"]
 TECHNIQUE = "static analysis of built MIR: guard dominance on returned waits, await inventory (suspension points), liveness of lock guards at yields, no-reach"
 
 
